@@ -208,7 +208,14 @@ func (in *Interp) verifrtConcrete(name string, args []Value) (Value, bool) {
 	case "Generators":
 		seed := args[0].(int64)
 		k := 0
+		var real *rand.Rand
 		return &Native{Name: "generator", Fn: func(in *Interp, _ []Value) Value {
+			if in.drawMode < 0 {
+				if real == nil {
+					real = rand.New(rand.NewSource(seed))
+				}
+				return real.Float64()
+			}
 			if in.drawMode > 0 {
 				k++
 				return ConcreteDraw(in.drawMode, seed, k-1)
